@@ -106,7 +106,7 @@ def rule_A2(ctx) -> None:
             ctx.proved("A2", f"{m}:task_done-after-successful-get", mod.loc(fn), "delegates to receive()")
             continue
         g = CFG(fn)
-        gets = _stmt_nodes(g, lambda s: _calls(s, "_queue.get"))
+        gets = _stmt_nodes(g, lambda s: _calls(s, "_queue.get") or _calls(s, "_queue.get_nowait"))   # get_nowait completes normally only with an item
         dones = _stmt_nodes(g, lambda s: _calls(s, "_queue.task_done"))
         name = f"{m}:task_done-after-successful-get"
         if not gets:
@@ -251,8 +251,31 @@ def rule_A4(ctx) -> None:
     sets = _stmt_nodes(g, lambda s: isinstance(s, ast.Assign) and any(_attr_is(t, "_flushed") for t in s.targets))
     puts = _stmt_nodes(g, lambda s: _calls(s, "_queue.put") or _calls(s, "_queue.put_nowait"))
     if not tests or not sets:
-        ctx.refuted("A4", "_flush_queue:once", "no-guard", mod.loc(fn), "_flush_queue has no once-only guard on `_flushed`: two close() calls inject sentinels twice",
-                    "ch.close(); ch.close() with blocked receivers")
+        # the guard may live where the flush is scheduled instead: close() tests and sets `_flushed` before it starts the
+        # (only) flush task, and nobody else calls _flush_queue
+        cf = mod.func(f"{CLS}.close")
+        cg = CFG(cf, implicit_exc=False)
+        ctests = [nd for nd in cg.nodes if nd.kind == "test" and isinstance(nd.stmt, ast.If) and "_flushed" in ast.unparse(nd.stmt.test)]
+        csets = _stmt_nodes(cg, lambda s: isinstance(s, ast.Assign) and any(_attr_is(t, "_flushed") for t in s.targets) and isinstance(s.value, ast.Constant) and s.value.value is True)
+        cflush = _stmt_nodes(cg, lambda s: "_flush_queue" in ast.unparse(s))
+        other_callers = [m for m, fns in mod.methods(CLS).items() for f in fns if m not in ("close", "_flush_queue")
+                         and any(isinstance(n, ast.Attribute) and n.attr == "_flush_queue" for n in ast.walk(f))]
+        cdom = cg.dominators(labels=normal_edge)
+        guarded_in_close = bool(ctests) and bool(csets) and bool(cflush) and not other_callers and not isinstance(cf, ast.AsyncFunctionDef) \
+            and all(cdom[f_.id] & {x.id for x in csets} and cdom[f_.id] & {t.id for t in ctests} for f_ in cflush)
+        # the flagged branch of the test must not reach the scheduling statement
+        if guarded_in_close:
+            for t in ctests:
+                tt = simplify(from_ast(t.stmt.test))
+                flagged_edge = "false" if (tt[0] == "op" and tt[1] == "not") else "true"
+                reach = cg.reachable([x for x, lab in cg.succ[t.id] if lab == flagged_edge], labels=normal_edge)
+                if any(f_.id in reach for f_ in cflush):
+                    guarded_in_close = False
+        if guarded_in_close:
+            ctx.proved("A4", "_flush_queue:once", mod.loc(cf), "close() schedules the flush once (guard on `_flushed` before the only scheduling site)")
+        else:
+            ctx.refuted("A4", "_flush_queue:once", "no-guard", mod.loc(fn), "_flush_queue has no once-only guard on `_flushed`: two close() calls inject sentinels twice",
+                        "ch.close(); ch.close() with blocked receivers")
     else:
         bad = False
         for t in tests:
@@ -370,14 +393,15 @@ def rule_A5(ctx) -> None:
             ctx.refuted("A5", name, "no-test", mod.loc(fn), f"{m}() returns what it got from the queue without filtering the flush sentinel",
                         "blocked receiver + close(): receiver returns the private sentinel object")
             continue
-        is_ops = all(isinstance(t.stmt.test.ops[0], ast.Is) for t in tests)
+        is_ops = all(isinstance(t.stmt.test.ops[0], (ast.Is, ast.IsNot)) for t in tests)
         ok = True
         for r in rets:
             for t in tests:
-                # return of the item only through the test's false edge
-                false_t = [x for x, lab in g.succ[t.id] if lab == "false"]
-                reach_true = g.reachable([x for x, lab in g.succ[t.id] if lab == "true"], labels=normal_edge)
-                if r.id in reach_true:
+                # return of the item only through the edge on which it is *not* the sentinel
+                # (`x is flush`: false edge; `x is not flush`: true edge)
+                sentinel_edge = "false" if isinstance(t.stmt.test.ops[0], ast.IsNot) else "true"
+                reach_sentinel = g.reachable([x for x, lab in g.succ[t.id] if lab == sentinel_edge], labels=normal_edge)
+                if r.id in reach_sentinel:
                     ok = False
             dom = g.dominators(labels=normal_edge)
             if not (dom[r.id] & {t.id for t in tests}):
